@@ -79,6 +79,11 @@ type c11Job struct {
 	Variant int      `json:"variant,omitempty"`
 	Loop    int      `json:"loop,omitempty"`
 	Burst   bool     `json:"burst,omitempty"` // free: AddEvent all at once instead of AddEventAndWait feeders
+	// Interp: a FRESH engine and program for this job alone (whatever a runtime component keeps is
+	// cold), the sink body builds the type and detail of raise() and a label with interpolated string
+	// literals ("T{{..}}"), every event fails with raise(); with Burst the very first evaluations of
+	// those literals overlap on the workers
+	Interp bool `json:"interp,omitempty"`
 	Static  []string `json:"captured_writes,omitempty"`
 	Note    string   `json:"note,omitempty"`
 }
@@ -132,6 +137,9 @@ func c11FreeEvents(j c11Job) []c11Event {
 		if j.Sinks > 1 {
 			sink = rng.Intn(2)
 		}
+		if j.Interp {
+			kind = 1
+		}
 		evs[i] = c11Payload(i+1, kind, sink)
 	}
 	return evs
@@ -164,7 +172,9 @@ const c11SinkBody = `
 `
 
 // c11Script builds the program of a variant (see c11Job.Variant).
-func c11Script(variant int) string {
+func c11Script(variant int) string { return c11ScriptI(variant, false) }
+
+func c11ScriptI(variant int, interp bool) string {
 	var sb strings.Builder
 	if variant >= 1 {
 		// declared BEFORE the sinks, in the scope the sinks are declared in
@@ -203,6 +213,12 @@ func c11Script(variant int) string {
 	}
 	sb.WriteString("func echo(x) {\n    y := x" + echoGlobals + "\n    return y\n}\n")
 	body := strings.Replace(c11SinkBody, "@GLOBALS@", globals, 1)
+	if interp {
+		// type and detail are built by interpolated literals from numbers of the event
+		body = strings.Replace(body, "raise(event.state.ty, event.state.detail, event.state.data)",
+			"lbl := \"<{{event.state.id}}:{{loc}}:{{id2}}>\"\n        if lbl != label(event.state.id) {\n            raise(\"Tbad\", lbl, event.state.data)\n        }\n        raise(\"T{{event.state.tyn}}\", \"D{{event.state.detailn}}\", event.state.data)", 1)
+		sb.WriteString("func label(i) {\n    return \"<{{i}}:{{i}}:{{i}}>\"\n}\n")
+	}
 	sb.WriteString("sink s1\n    kindmatch [ \"c11.a\" ]" + body)
 	sb.WriteString("sink s2\n    kindmatch [ \"c11.b\" ]" + body)
 	sb.WriteString("sink nudge\n    kindmatch [ \"c11.nudge\" ]\n{\n    n := 1\n}\n")
@@ -293,7 +309,9 @@ func (e *c11Engine) hold(inv *c11Inv, p int) {
 	<-inv.release
 }
 
-func c11NewEngine(workers, variant int) (*c11Engine, error) {
+func c11NewEngine(workers, variant int) (*c11Engine, error) { return c11NewEngineI(workers, variant, false) }
+
+func c11NewEngineI(workers, variant int, interp bool) (*c11Engine, error) {
 	e := &c11Engine{workers: workers, variant: variant}
 	e.erp = interpreter.NewECALRuntimeProvider("c11", nil, nil)
 	e.erp.Processor = engine.NewProcessor(workers)
@@ -302,8 +320,8 @@ func c11NewEngine(workers, variant int) (*c11Engine, error) {
 	vs := scope.NewScope(scope.GlobalScope)
 	vs.SetValue("mid", &c11Func{"mid", e})
 	vs.SetValue("report", &c11Func{"report", e})
-	if _, err := evalProgram("c11", c11Script(variant), vs, e.erp); err != nil {
-		return nil, fmt.Errorf("the C11 script (variant %d) does not evaluate: %v\n%s", variant, err, c11Script(variant))
+	if _, err := evalProgram("c11", c11ScriptI(variant, interp), vs, e.erp); err != nil {
+		return nil, fmt.Errorf("the C11 script (variant %d) does not evaluate: %v\n%s", variant, err, c11ScriptI(variant, interp))
 	}
 	e.vs = vs
 	e.proc.Start()
@@ -321,6 +339,7 @@ func (e *c11Engine) newInv(idx int, ev c11Event) *c11Inv {
 	inv.event = engine.NewEvent(name, strings.Split(kind, "."), map[interface{}]interface{}{
 		"id": float64(ev.ID), "kind": float64(ev.Kind), "ty": fmt.Sprintf("T%d", ev.Ty),
 		"detail": fmt.Sprintf("D%d", ev.Detail), "data": float64(ev.Data),
+		"tyn": float64(ev.Ty), "detailn": float64(ev.Detail),
 		"key": fmt.Sprintf("k%d", ev.ID), "n": float64(e.loop.Load()),
 	})
 	inv.rm = e.proc.NewRootMonitor(nil, nil)
@@ -418,6 +437,22 @@ func (e *c11Engine) observe(inv *c11Inv) c11Obs {
 	case d.Type == util.ErrReturn:
 		o.Class = 3
 		o.Data = c11Num(d.Data)
+		// the detail of a return report names the returned value: it must not name the value of
+		// ANOTHER event (numbers in the text; judged only when none of them is this event's own)
+		own, foreign := false, 0
+		for _, f := range strings.FieldsFunc(d.Detail, func(r rune) bool { return r < '0' || r > '9' }) {
+			if n, err := strconv.Atoi(f); err == nil {
+				if n == inv.ev.Data {
+					own = true
+				} else if e.otherData(inv, n) {
+					foreign = n
+				}
+			}
+		}
+		if !own && foreign != 0 {
+			o.Class = 7
+			o.Note = fmt.Sprintf("the report of event %d (returned %d) carries the detail %q: the value %d belongs to another event", inv.ev.ID, inv.ev.Data, d.Detail, foreign)
+		}
 	case d.Type == util.ErrNotANumber:
 		o.Class = 2
 		o.Data = c11Num(d.Data)
@@ -442,6 +477,19 @@ func (e *c11Engine) observe(inv *c11Inv) c11Obs {
 		}
 	}
 	return o
+}
+
+// otherData: is n the data value of another invocation known to the engine?
+func (e *c11Engine) otherData(inv *c11Inv, n int) bool {
+	found := false
+	e.byName.Range(func(_, v interface{}) bool {
+		if o := v.(*c11Inv); o != inv && o.ev.Data == n {
+			found = true
+			return false
+		}
+		return true
+	})
+	return found
 }
 
 // resetGlobals puts the global variables of the variant back before a job.
@@ -705,7 +753,12 @@ func c11Child(spec string) {
 	for _, it := range jobs {
 		w := it.Job.Workers*10 + it.Job.Variant
 		e := engines[w]
-		if e == nil {
+		if it.Job.Interp {
+			if e, err = c11NewEngineI(it.Job.Workers, it.Job.Variant, true); err != nil {
+				fmt.Fprintln(os.Stderr, "c11 child:", err)
+				os.Exit(3)
+			}
+		} else if e == nil {
 			if e, err = c11NewEngine(it.Job.Workers, it.Job.Variant); err != nil {
 				fmt.Fprintln(os.Stderr, "c11 child:", err)
 				os.Exit(3)
@@ -723,6 +776,9 @@ func c11Child(spec string) {
 		out.Write(line)
 		out.WriteString("\n")
 		out.Flush()
+		if it.Job.Interp && res.Problem == "" {
+			e.proc.Finish()
+		}
 		if res.Problem != "" {
 			// goroutines of this job are stuck: this process is not reusable
 			os.Exit(0)
@@ -1119,6 +1175,15 @@ func c11Jobs(c *Ctx) []c11Job {
 			jobs = append(jobs, j)
 		}
 	}
+	// cold starts: a fresh program per job, every event fails through interpolated literals, the
+	// first evaluations overlap (burst)
+	nc := c.Pick(48, 400)
+	for i := 0; i < nc; i++ {
+		w := []int{2, 3, 4, 8, 16}[i%5]
+		jobs = append(jobs, c11Job{Mode: "free", Workers: w, N: 2*w + 2, Seed: c.Seed*1000 + 7000 + int64(i), Sinks: 1 + i%2,
+			Burst: true, Interp: true, Note: c11FreeNote})
+	}
+	c.Extra["cold_start_jobs"] = nc
 	return jobs
 }
 
